@@ -220,10 +220,7 @@ class BitStringBitWriter(BitWriter):
 
     def set_uint(self, value, nbits, bitpos):
         import bitstring
-        if nbits // NBITS_PER_BYTE == 0:
-            bins = bitstring.Bits(uint=value, length=nbits)
-        else:
-            bins = bitstring.Bits(uintbe=value, length=24)
+        bins = bitstring.Bits(uint=value, length=nbits)
         self.bit_stream[bitpos: bitpos + nbits] = bins
 
 
